@@ -62,17 +62,23 @@ def run_jobs(jobs, seed=0, nproc=None):
         return -(sp.get('K', 0) * 1000 + len(sp.get('ops', [])) * sp.get('horizon', 1)) if sp else 0
     order = sorted(range(len(jobs)), key=lambda i: (weight(jobs[i]), i))
     jobs = [jobs[i] for i in order]
-    args = [(j, seed) for j in jobs]
-    if nproc <= 1 or len(jobs) <= 1:
-        real = sys.stdout
+    here = [(j, seed) for j in jobs if j.get('main_process')]      # jobs that create their own process pools
+    args = [(j, seed) for j in jobs if not j.get('main_process')]
+    outs = []
+    real = sys.stdout
+    if nproc <= 1 or len(args) <= 1:
         try:
-            return [_worker(a) for a in args]
+            outs = [_worker(a) for a in args]
         finally:
             sys.stdout = real
-    ctx = mp.get_context('fork')
-    # longest first would need estimates; keep submission order, chunk 1
-    with ctx.Pool(nproc) as pool:
-        outs = list(pool.imap(_worker, args, chunksize=1))
+    else:
+        ctx = mp.get_context('fork')
+        with ctx.Pool(nproc) as pool:
+            outs = list(pool.imap(_worker, args, chunksize=1))
+    try:
+        outs += [_worker(a) for a in here]
+    finally:
+        sys.stdout = real
     return outs
 
 
